@@ -34,6 +34,7 @@ pub struct Weights {
     pub iter_open: u32,
     pub iter_step: u32,
     pub fill: u32,
+    pub swapped: u32,
 }
 
 impl Weights {
@@ -60,6 +61,7 @@ impl Weights {
             iter_open: 0,
             iter_step: 0,
             fill: 2,
+            swapped: 2,
         }
     }
 }
@@ -338,6 +340,10 @@ pub fn op(p: &GenProfile) -> BoxedStrategy<Op> {
             (any::<u16>(), prop_oneof![3 => 2u16..40, 2 => 40u16..400, 1 => 400u16..1500, 2 => prop_oneof![Just(254u16), Just(255u16), Just(256u16), Just(257u16), Just(508u16), Just(510u16), Just(512u16)]], prop_oneof![3 => Just(16u8), 2 => Just(0u8), 1 => 0u8..240], proptest::bool::weighted(0.15), any::<bool>())
                 .prop_map(|(start, n, len, del, one_seqno)| Op::Fill { start, n, len, del, one_seqno })
                 .boxed(),
+        ),
+        (
+            w.swapped,
+            (any::<u16>(), any::<u16>(), 0u8..240).prop_map(|(a, b, len)| Op::Swapped { a, b, len }).boxed(),
         ),
         (w.rotate, Just(Op::Rotate).boxed()),
         (w.flush, wm().prop_map(|wm| Op::Flush { wm }).boxed()),
